@@ -332,12 +332,12 @@ def validate(kind, traces, scratch, parts_total=14, timeout=1500, proj="acct"):
     return verdicts, results, knife
 
 
-def export_edges(kind, inst, timeout=900, workers=1):
+def export_edges(kind, inst, timeout=900, workers=1, view="ViewAcct"):
     """every transition of the instance with a shortest witness history (VIEW hides the history)"""
     import json
     from .. import tlc
     module = "Futures" if kind == "futures" else "Spot"
-    r = tlc.run(module, cfg_text=model_cfg(kind, inst, export=True, check=False), workers=workers, timeout=timeout)
+    r = tlc.run(module, cfg_text=model_cfg(kind, inst, export=True, check=False, view=view), workers=workers, timeout=timeout)
     return [json.loads(e[1]) for e in tlc.tagged(r, "EDGE")], r
 
 
